@@ -114,6 +114,7 @@ type FnGen struct {
 	ownAllocs map[string][]ownAlloc // type name -> objects allocated here (invariant not yet assumed)
 	dirty     map[string][]Val    // type name -> pre-existing objects whose invariant fields were written
 
+	domainTerm string        // the contract's domain predicate at entry ("" if none)
 	locals    map[string]Val // source-level locals (from DebugRef), latest value seen
 	localDefs map[string][]localDef
 	curIdx    int
@@ -181,6 +182,9 @@ var strongKinds = map[string]bool{
 	"shared-write": true,
 }
 
+var functionalKinds = map[string]bool{"ensures": true, "invariant-entry": true, "invariant-preserved": true,
+	"assert": true, "decreases": true, "requires": true}
+
 func (g *FnGen) oblige(kind, label, guard, cond, desc string, pos token.Pos) *Obligation {
 	r := g.root()
 	label = g.labelPrefix + label
@@ -193,6 +197,10 @@ func (g *FnGen) oblige(kind, label, guard, cond, desc string, pos token.Pos) *Ob
 		p := g.P.Prog.Fset.Position(pos)
 		ob.Pos = fmt.Sprintf("%s:%d", strings.TrimPrefix(p.Filename, g.P.RepoDir+"/"), p.Line)
 	}
+	var domExtras []string
+	if r.domainTerm != "" && functionalKinds[kind] {
+		domExtras = []string{r.domainTerm}
+	}
 	if r.obNames == nil {
 		r.obNames = map[string]int{}
 	}
@@ -200,7 +208,8 @@ func (g *FnGen) oblige(kind, label, guard, cond, desc string, pos token.Pos) *Ob
 	if n := r.obNames[ob.Name]; n > 1 {
 		ob.Name = fmt.Sprintf("%s~%d", ob.Name, n)
 	}
-	r.items = append(r.items, Item{Kind: itOblig, Guard: guard, Fact: cond, Ob: ob})
+	ob.extras = domExtras
+	r.items = append(r.items, Item{Kind: itOblig, Guard: guard, Fact: cond, Ob: ob, Extras: domExtras})
 	r.obs = append(r.obs, ob)
 	return ob
 }
